@@ -7,7 +7,8 @@ from .. import ser, edits
 from ..val import veq, clone
 
 ID = 'C15'
-SIZES = {'quick': 3000, 'thorough': 80000}
+SIZES = {'quick': 3000, 'thorough': 300000}
+REQUIRED_EVENTS = ['roundtrips_ok', 'identical_empty']
 RULE = ('pairs (base, target) of map-rooted, null-free, $-free trees; target is an edit script on base: keys added/removed/changed at any '
         'depth, list entries appended, removed, reordered, duplicated, inserted in the middle, changed in place, removed entries that are '
         'partial matches of kept ones, container kind changes in every direction (also from/to empty containers), scalars retyped with the same '
